@@ -142,6 +142,23 @@ ReleaseRuleReest == (Good /\ Last.a = "RecvReest" /\ Last.relh >= 0 /\ Last.sher
                        /\ Last.relh \in released[Last.p]
                        /\ Last.relh < Last.sh[Last.p].LC[1].h
 
+\* ... and the commitment POINTS a party sends follow its own derivation chain without gaps or repeats
+\* (recorded as indexes into the sender's chain; -2 = not on the chain at all):
+\* revoke_and_ack carries the point two above the secret it releases;
+NextPointRule == (Good /\ Last.a \in {"Revoke", "RecvReest"} /\ Last.relh >= 0) => Last.nph = Last.relh + 2
+\* channel_reestablish names the point of the (durable) unrevoked local commitment, and a channel_ready
+\* re-sent on reconnect - from the database handle (peer/funding: OpenChannel.SecondCommitmentPoint) -
+\* always repeats point #1, whatever the height; the link's own resend uses the point after the tail
+ReestPointRule == (Good /\ Last.a = "SendReest" /\ Last.err = "") =>
+                     /\ Last.lup = Last.st[Last.p].LC[1].h
+                     /\ Last.crp = 1
+                     /\ Last.nrk = Last.st[Last.p].LC[1].h + 1
+
+\* C06 part A on the channel: after the k-th revoke_and_ack was accepted, ANY handle on the channel (here one
+\* fetched from the database before the history, never updated since) reproduces exactly the k secrets
+\* received - the remote chain's tail height is the number of states the peer has revoked
+StaleSecretsRule == (Good /\ Last.a = "RecvRev" /\ Last.rsk # -1) => Last.rsk = Last.st[Last.p].RC[1].h
+
 TInit == Init /\ opener = "A" /\ l = 1 /\ ctx = [type |-> "tweakless", dust |-> [A |-> 0, B |-> 0], thaw |-> 0]
 
 Is(a) == l <= Len(Trace) /\ Trace[l].a = a /\ l' = l + 1
